@@ -223,3 +223,94 @@ def pickle_roundtrip(seed: int = 0, max_classes: int = 3, with_big_model: bool =
         failures.append({"observed": "no generated meta-model was accepted"})
     return {"cases": cases, "distinct": accepted, "failures": failures, "exhaustive": True,
             "samples": [{"accepted": accepted, "recorded_models": len(recorded)}]}
+
+
+# ---------------------------------------------------------------------------------------------------------------
+# C23 / C04 (examples-bounded): the cache is transparent also when the model file is *edited* between runs
+
+EDIT_MODEL = '''\
+@implementation_specific
+class Special(DBC):
+    """Represent something whose snippet is missing: an error with a location in the generator phase."""
+
+    value: str
+    """Value"""
+
+    def __init__(self, value: str) -> None:
+        self.value = value
+
+
+class Plain(DBC):
+    """Represent something plain."""
+
+    special: Optional[Special]
+    """Special"""
+
+    def __init__(self, special: Optional[Special] = None) -> None:
+        self.special = special
+
+
+__version__ = "dummy"
+__xml_namespace__ = "https://dummy.com"
+'''
+
+
+def edited_models(seed: int = 0, **_: Any) -> Dict[str, Any]:
+    """A warm-cache run on an edited model file must report exactly what a cold run on the same text reports
+    (exit status, stdout, stderr with its line and column numbers, output files)."""
+    import io
+    import tempfile
+    from aas_core_codegen import main as cg_main
+    from native import c02
+    variants = [("the original text", EDIT_MODEL), ("two blank lines prepended", "\n\n" + EDIT_MODEL),
+                ("a comment line prepended", "# a comment\n" + EDIT_MODEL),
+                ("without the final newline", EDIT_MODEL.rstrip("\n")),
+                ("blank lines appended", EDIT_MODEL + "\n\n\n"),
+                ("a blank line inserted before the second class", EDIT_MODEL.replace("\n\nclass Plain", "\n\n\nclass Plain")),
+                ("trailing blanks after a statement", EDIT_MODEL.replace('"""Value"""', '"""Value"""   ')),
+                ("the original text again", EDIT_MODEL)]
+    failures: List[Dict[str, Any]] = []
+    cases = 0
+
+    def run_once(root: pathlib.Path, text: str, cache: bool, tag: str) -> Any:
+        model = root / "meta_model.py"
+        model.write_text(text, encoding="utf-8")
+        out = root / f"out_{tag}"
+        out.mkdir()
+        stdout, stderr = io.StringIO(), io.StringIO()
+        rc = cg_main.execute(cg_main.Parameters(model_path=model, target=cg_main.Target.JSONSCHEMA,
+                                                snippets_dir=root / "snippets", output_dir=out, cache_model=cache),
+                             stdout=stdout, stderr=stderr)
+        files = sorted((str(p.relative_to(out)), p.read_bytes()) for p in out.rglob("*") if p.is_file())
+        return rc, stdout.getvalue().replace(str(out), "<out>"), stderr.getvalue(), files
+    old_tmp = os.environ.get("TMPDIR")
+    with tempfile.TemporaryDirectory() as d:
+        root = pathlib.Path(d)
+        (root / "snippets").mkdir()
+        for name, content in c02.SNIPPETS.items():
+            (root / "snippets" / name).write_text(content, encoding="utf-8")
+        (root / "tmp").mkdir()
+        os.environ["TMPDIR"] = str(root / "tmp")  # the cache lives under tempfile.gettempdir()
+        tempfile.tempdir = None
+        try:
+            for k, (what, text) in enumerate(variants):
+                cases += 1
+                try:
+                    warm = run_once(root, text, True, f"warm{k}")
+                    cold = run_once(root, text, False, f"cold{k}")
+                except BaseException as e:  # noqa
+                    failures.append({"variant": what, "observed": f"a run raised {type(e).__name__}: {str(e)[:120]}"})
+                    continue
+                if warm != cold:
+                    diff = [n for n, a, b in zip(("exit status", "stdout", "stderr", "files"), warm, cold) if a != b]
+                    failures.append({"variant": what, "sequence": [v for v, _ in variants[:k + 1]],
+                                     "observed": f"with the cache the run differs from a run without it in: {', '.join(diff)}",
+                                     "stderr_with_cache": warm[2][:300], "stderr_without_cache": cold[2][:300]})
+        finally:
+            if old_tmp is None:
+                os.environ.pop("TMPDIR", None)
+            else:
+                os.environ["TMPDIR"] = old_tmp
+            tempfile.tempdir = None
+    return {"cases": cases, "distinct": cases, "failures": failures[:4], "exhaustive": False,
+            "samples": [{"variants": [v for v, _ in variants]}]}
